@@ -123,8 +123,10 @@ T = {
         "methods; run-time contract check of the real codecs over generated values as labelled bounded stand-in",
         "Proved: encode_state_data asks the process registry for the state type of the value's class, lets exactly that type serialise exactly "
         "the value in exactly the requested format and reports the identifier of that same type; decode_state_data selects the decoder by "
-        "exactly the recorded identifier and lets it read exactly the given bytes in the requested format; the copy methods return deep copies. "
-        "The codec law from_bytes(as_bytes(v, e), e) == v of each state type (json / pickle / text / bytes / dataframes ...) is NOT proved - "
+        "exactly the recorded identifier and lets it read exactly the given bytes in the requested format; the text type writes utf-8 and reads it "
+        "back with the same codec, the bytes type passes bytes through (round-trip lemma relative to the utf-8 codec law); the copy methods return "
+        "deep copies. "
+        "The codec law from_bytes(as_bytes(v, e), e) == v of the other state types (json / djson / pickle / dataframes ...) is NOT proved - "
         "library codecs are outside the engine - and is explored over generated values of every built-in type and format.",
         "17 deductive obligations decide who encodes and who decodes; the round trip itself is bounded. One recorded finding (nested "
         "containers in the line-oriented dictionary format). " + BOUNDED),
